@@ -14,6 +14,7 @@ CONFIGS = {
         ("2req", 2, 1, False, None, True),
         ("2req+bg/pb2", 2, 1, True, 2, True),
         ("3req/pb1", 3, 1, False, 1, True),
+        ("1req+poller/pb2", 1, 1, "poller", 2, True),
     ],
     "thorough": [
         ("1req+bg", 1, 1, True, None, True),
@@ -21,6 +22,8 @@ CONFIGS = {
         ("2req+bg/pb3", 2, 1, True, 3, True),
         ("3req/pb2", 3, 1, False, 2, True),
         ("2req-x2/pb2", 2, 2, False, 2, True),
+        ("1req+poller/pb3", 1, 1, "poller", 3, True),
+        ("2req+poller/pb2", 2, 1, "poller", 2, True),
     ],
 }
 
